@@ -40,6 +40,18 @@ func (r *Rand) Intn(n int) int {
 			r.Rand.Intn(n)
 			return v % n
 		}
+		// rend shares one Rand between a pooled connection's batcher and its recovery
+		// goroutine; the kernel serialises their draws (distinct labels per method)
+		run.Park(&hub.Parked{Kind: "rand", Obj: r.id, Detail: fmt.Sprintf("Intn(%d)", n)})
 	}
 	return r.Rand.Intn(n)
+}
+
+// Int31 shadows (*math/rand.Rand).Int31.
+func (r *Rand) Int31() int32 {
+	run := hub.Current()
+	if run != nil && run == r.run && run.ParkSubmit {
+		run.Park(&hub.Parked{Kind: "rand", Obj: r.id, Detail: "Int31"})
+	}
+	return r.Rand.Int31()
 }
